@@ -225,7 +225,7 @@ static void primitive_cases(int th) {
   }
   // every k: boundary and random values
   for (unsigned k = 1; k <= 62; k++) {
-    for (unsigned rep = 0; rep < (th ? 8u : 1u); rep++) {
+    for (unsigned rep = 0; rep < (th ? 40u : 3u); rep++) {
       if (!case_begin("znx_normalize|boundary+random", "k=%u rep=%u", k, rep)) continue;
       rng_t* r = crng();
       uint64_t n = 257;
@@ -321,7 +321,7 @@ void run_C05(void) {
   for (unsigned k = 1; k <= 62; k++)
     for (uint64_t rs = 0; rs <= SMAX; rs++)
       for (uint64_t as = 0; as <= SMAX; as++) {
-        unsigned reps = th ? 6 : 1;
+        unsigned reps = th ? 40 : 3;
         for (unsigned rep = 0; rep < reps; rep++, ctr++) {
           // the carry-chain families matter most when limbs are dropped: rotate through all families
           int fam = (int)((ctr + rep) % N_FAM);
@@ -361,7 +361,7 @@ void run_C05(void) {
       for (uint64_t s = 1; s <= 3; s++) {
         uint64_t nsel = (e + s - 1 - b) / s;
         for (uint64_t rs = 0; rs <= 4; rs++) {
-          unsigned nk = th ? 12 : 2;
+          unsigned nk = th ? 62 : 6;
           for (unsigned t = 0; t < nk; t++) {
             ctr++;
             unsigned k = 1 + (unsigned)((ctr * 7 + t * 13) % 62);
